@@ -12,6 +12,9 @@ import (
 	"syscall"
 	"time"
 
+	hio "github.com/hprose/hprose-golang/v3/io"
+
+	"verif/harness/gen"
 	"verif/harness/tr"
 )
 
@@ -83,5 +86,39 @@ func isolated(t *tr.Writer, driver string, c interface{}, timeout time.Duration)
 		} else {
 			t.Emit(tr.Rec{"ev": "crash", "detail": detail})
 		}
+	}
+}
+
+// dirtyPools: a history for the pooled coders. Every coder the pools can hand out next has been used by
+// somebody else with every setting away from its default, with references and classes in its tables and
+// with a failed operation behind it, and has been given back with FreeEncoder / FreeDecoder - as an RPC
+// codec with options, or another user of the package, leaves them. What Marshal / Unmarshal get from
+// the pool afterwards must behave like a new coder.
+func dirtyPools() {
+	const n = 48
+	decs := make([]*hio.Decoder, n)
+	for i := range decs {
+		d := hio.GetDecoder()
+		d.ResetBytes([]byte("a3{s5\"hello\"c5\"Plain\"3{uaubuc}o0{1r1;0}l5"))
+		d.Simple(i%2 == 0)
+		d.LongType, d.RealType, d.MapType = hio.LongTypeBigInt, hio.RealTypeBigFloat, hio.MapTypeSIMap
+		d.StructType, d.ListType = hio.StructTypeValue, hio.ListTypeSlice
+		var v interface{}
+		d.Decode(&v) // ends in an error (truncated input) with a string and a class in the tables
+		decs[i] = d
+	}
+	for _, d := range decs {
+		hio.FreeDecoder(d)
+	}
+	encs := make([]*hio.Encoder, n)
+	for i := range encs {
+		e := hio.GetEncoder()
+		e.Simple(i%2 == 0)
+		e.Encode([]interface{}{"hello", "hello", &gen.Plain{A: 1, B: "hello"}})
+		e.Encode(make(chan int)) // fails
+		encs[i] = e
+	}
+	for _, e := range encs {
+		hio.FreeEncoder(e)
 	}
 }
